@@ -218,3 +218,5 @@ extend("C06", SHAPE_V % "Curve.degree_increase, degree_decrease, the degree sett
 extend("C01", "Engine V proves Curve.eval's dispatch for ALL inputs: a scalar argument yields exactly the value at that parameter, a sequence of ANY length yields one "
               "value per node in order (callee __eval by contract), plus the span search, valid() and Horner evaluation.")
 ENGINE_V += ["C05"]
+extend("C12", SHAPE_V % "Curve.fit_points (nodes given / default)")
+ENGINE_V += ["C12"]
